@@ -162,6 +162,15 @@ CLAIMED["C05"] = dict(
            "magnitude. The numerical clauses (backward error bound, exact integer determinants, multiplicativity) are values of runs and are NOT claimed."),
     note=TB + "The two std::vector overloads of LUDecomposition do not compile (dim1/clean) and cannot be instantiated by any caller; they are outside the analysis.")
 
+CLAIMED["C07"] = dict(
+    engine="E2+E5+E8+E4",
+    technique="static analysis: symbolic index bounds of every VectorTools/NumTools template instantiation, vector operator and StatTools function with callee post-conditions (E2), argument/parameter name agreement at forwarding calls, shape rules of the max-shifted exponent sums and the pairwise log-sum (shift by the larger operand, infinite shift tested first, shift undone), rank/comparator agreement of the FDR routine, sortedness typestate for order statistics, shape of extremum searches, documented-exception agreement",
+    level=("Structural clauses: no element access without a size test that throws first (own or a callee's) for every input length incl. empty and mismatched; forwarded flags keep their position; every exponential in the "
+           "log-domain reductions is shifted by the maximum of the same data, never positive in logsum, guarded against inf - inf, and un-shifted at the end; the FDR divisor is the rank in the sorted order and agrees with the "
+           "comparator; median reads positions n/2-1, n/2 of a fully sorted container; min/max/whichMin/whichMax throw on empty input, start at the first element, compare in the right direction, keep the first position. "
+           "The numerical identities (equivariance, bounds, moments, entropies, FDR values) are NOT claimed."),
+    note=TB + "sympy (tooling venv) does the polynomial comparisons. Data-dependent indices (extract, order-based access) stay UNKNOWN.")
+
 NOT_APPLICABLE = {
     "C06": ("every clause is a floating-point identity of the JAMA QL/QR iterations (A.V = V.D within k.eps, ordering, trace/determinant); correctness lies in rotation coefficients and "
             "deflation tests that no sound static argument in reach bounds, and no structural necessary condition separable from run-time invariants exists (DESIGN.md section 6)"),
